@@ -297,41 +297,36 @@ mod proofs {
   repr_harness!(c20_lang_pipeline_java, Java);
   repr_harness!(c20_lang_pipeline_css, Css);
 
-  /// the six spellings the property names, languages `lo..hi` of `all_langs()` (symbolic
-  /// index, case-split per language so that each pipeline runs on concrete data)
-  fn named_spellings_range(lo: usize, hi: usize) {
-    let langs = SupportLang::all_langs();
-    assert!(langs.len() == 23);
-    let i: usize = kani::any();
-    kani::assume(i >= lo && i < hi);
-    let mut k = 0;
-    while k < 23 {
-      if i == k {
-        pipeline_lang(langs[k], 0, 6);
+  /// the six spellings the property names through every other language (one harness per
+  /// language, thorough tier).  A version with the language as a symbolic index, case-split,
+  /// ran for > 50 min per six languages: every heap operation is then under a guard.
+  macro_rules! named_harness {
+    ($name:ident, $lang:ident) => {
+      #[kani::proof]
+      #[kani::unwind(25)]
+      fn $name() {
+        pipeline_lang(SupportLang::$lang, 0, 6);
       }
-      k += 1;
-    }
+    };
   }
-  #[kani::proof]
-  #[kani::unwind(25)]
-  fn c20_lang_named_spellings_l0() {
-    named_spellings_range(0, 6);
-  }
-  #[kani::proof]
-  #[kani::unwind(25)]
-  fn c20_lang_named_spellings_l1() {
-    named_spellings_range(6, 12);
-  }
-  #[kani::proof]
-  #[kani::unwind(25)]
-  fn c20_lang_named_spellings_l2() {
-    named_spellings_range(12, 18);
-  }
-  #[kani::proof]
-  #[kani::unwind(25)]
-  fn c20_lang_named_spellings_l3() {
-    named_spellings_range(18, 23);
-  }
+  named_harness!(c20_lang_named_bash, Bash);
+  named_harness!(c20_lang_named_cpp, Cpp);
+  named_harness!(c20_lang_named_csharp, CSharp);
+  named_harness!(c20_lang_named_elixir, Elixir);
+  named_harness!(c20_lang_named_go, Go);
+  named_harness!(c20_lang_named_haskell, Haskell);
+  named_harness!(c20_lang_named_javascript, JavaScript);
+  named_harness!(c20_lang_named_json, Json);
+  named_harness!(c20_lang_named_kotlin, Kotlin);
+  named_harness!(c20_lang_named_lua, Lua);
+  named_harness!(c20_lang_named_php, Php);
+  named_harness!(c20_lang_named_python, Python);
+  named_harness!(c20_lang_named_ruby, Ruby);
+  named_harness!(c20_lang_named_scala, Scala);
+  named_harness!(c20_lang_named_swift, Swift);
+  named_harness!(c20_lang_named_tsx, Tsx);
+  named_harness!(c20_lang_named_typescript, TypeScript);
+  named_harness!(c20_lang_named_yaml, Yaml);
 
   /// every language: the expando character is not a character that can occur in a
   /// meta-variable spelling (sigil, [A-Z_0-9]) unless it is the sigil itself
